@@ -82,7 +82,7 @@ def write_replay(prop: str, unit: str, ob, verif_root: str) -> Tuple[str, bool]:
 
 
 # ------------------------------------------------------------------------------------------------
-def native_replay(unit: str, ob, model: Optional[Dict[str, Any]] = None) -> Dict[str, Any]:
+def native_replay(unit: str, ob, model: Optional[Dict[str, Any]] = None, check_pre: bool = False) -> Dict[str, Any]:
     from .contracts import REG
     from .ctx import Ctx
     from .source import class_of, find_def
@@ -112,6 +112,26 @@ def native_replay(unit: str, ob, model: Optional[Dict[str, Any]] = None) -> Dict
     interp = Interp(ctx, REG)
     interp.unit_module = mi
     pre_env = {p: B.reflect(v, interp) for p, v in real_args.items()}
+    if check_pre:
+        # random inputs (encoder cross-check): only states that satisfy the unit's preconditions
+        # and -- for a method -- the class invariant are meaningful starting points
+        pre_clauses = [(cl, pre_env) for cl in fc.requires]
+        cc0 = interp.reg.classes.get(unit.rsplit(".", 1)[0]) if is_method else None
+        if cc0 is not None and not local.endswith(".__init__"):
+            pre_clauses += [(cl, {"self": pre_env["self"]}) for cl in list(cc0.inv) + list(getattr(cc0, "published_inv", []) or [])]
+        for cl, env_ in pre_clauses:
+            try:
+                ok = interp.spec_eval(cl, dict(env_), None, mi)
+            except Exception as e:
+                raise CannotReplay(f"precondition not evaluable concretely: {e!r}")
+            from .sym import SymBool as _SB
+            import z3 as _z3
+
+            if isinstance(ok, _SB):
+                sv = _z3.simplify(ok.e)
+                ok = True if _z3.is_true(sv) else (False if _z3.is_false(sv) else None)
+            if ok is not True:
+                return {"skipped": "precondition / invariant does not hold on this input", "clause_violated": False}
     # run the real function
     fn = mi.module
     for part in local.split("."):
@@ -209,7 +229,21 @@ class Builder:
 
         ty = TYPE_ALIASES.get(ty.strip(), ty.strip())
         if "|" in ty:
-            raise CannotReplay("union type")
+            alts = [a.strip() for a in _split_top(ty, "|")]
+            if len(alts) > 1:
+                k = int(self.get(f"{name}.alt", 0)) % len(alts)
+                return self.build(alts[k], name)
+        if ty == "opaque":
+            return object()
+        if ty in ("obj asyncio:Event", "obj trio:Event"):
+            import asyncio as _a
+
+            import trio as _t
+
+            ev = _a.Event() if "asyncio" in ty else _t.Event()
+            if bool(self.get(f"{name}.flag", False)):
+                ev.set()
+            return ev
         if ty in ("int", "nat"):
             v = int(self.get(name, 0))
             self.desc[name] = v
@@ -267,6 +301,8 @@ class Builder:
             for f, t in cc.fields.items():
                 if cc.callbacks and f in cc.callbacks:
                     raise CannotReplay("callback fields")
+                if isinstance(getattr(cls, f, None), property):
+                    continue  # a read-only property of the class, not a stored field
                 object.__setattr__(obj, f, self.build(t, f"{name}.{f}"))
             self.types[id(obj)] = ty
             return obj
@@ -294,6 +330,8 @@ class Builder:
             from .sym import PDict
 
             return PDict({k: self.reflect_value(x, interp) for k, x in v.items()})
+        if type(v).__module__.split(".")[0] in ("asyncio", "trio") and type(v).__name__ == "Event":
+            return SObj(("asyncio:Event" if type(v).__module__.startswith("asyncio") else "trio:Event"), {"flag": v.is_set()})
         if type(v).__name__ == "EventWrapper":
             return SObj(class_of("hypercorn.typing:Event"), {"flag": v.is_set(), "g_sticky": False})
         import enum
